@@ -230,7 +230,8 @@ TrShutdown ==
   /\ LET r == TraceLog[l] IN
        /\ r.in.op \in {"closerouter", "rmrealm"}
        /\ r.ret
-       /\ \A s \in Joined(Cur) : sess[s].attrs.color = "tainted"     \* (what unobserved sessions receive is not logged)
+       /\ \A s \in Joined(Cur) : sess[s].attrs.color = "tainted"     \* (what unobserved sessions receive is not logged,
+                                \/ sess[s].stalled                    \*  nor what a session that does not read is sent)
                                 \/ (ToldShutdown(LoggedFor(r, s)) /\ NoInversion(LoggedFor(r, s)))
        /\ Commit([CloseRealmFx(Cur) EXCEPT !.cfg.closed = TRUE, !.em = <<>>])
 
